@@ -1,3 +1,4 @@
+#![allow(unexpected_cfgs)]
 mod batch_maker;
 mod config;
 mod helper;
@@ -5,6 +6,8 @@ mod mempool;
 mod processor;
 mod quorum_waiter;
 mod synchronizer;
+#[cfg(hotstuff_verif)]
+pub mod verif;
 
 #[cfg(test)]
 #[path = "tests/common.rs"]
